@@ -23,11 +23,11 @@ def rp(rng, fam):
 
 
 def gen_pair(rng):
-    fam = rng.choice(['ll', 'll-vert', 'll-horiz', 'll-stem-bar', 'quad', 'quad-linear-x', 'cubic', 'cubic-elevated', 'cubic-straight', 'cubic-arch', 'cubic-vline', 'cubic-hline', 'cubic-near-elevated', 'cubic-near-straight', 'quad-near-linear', 'cubic-flat-end', 'end-hook'])
+    fam = rng.choice(['ll', 'll-vert', 'll-horiz', 'll-stem-bar', 'quad', 'quad-linear-x', 'cubic', 'cubic-elevated', 'cubic-straight', 'cubic-arch', 'cubic-vline', 'cubic-hline', 'cubic-near-elevated', 'cubic-near-straight', 'quad-near-linear', 'cubic-flat-end', 'end-hook', 'quad-flat-start', 'll-axis', 'curve-axis'])
     cf = rng.choice(['int', 'float'])
     def rline():
         return Line(rp(rng, cf), rp(rng, cf))
-    if fam.startswith('ll'):
+    if fam.startswith('ll') and fam != 'll-axis':
         a = rline()
         if fam == 'll-stem-bar':
             x = float(rng.randint(-200, 200)); y = float(rng.randint(-200, 200))
@@ -44,6 +44,46 @@ def gen_pair(rng):
         else: b = rline()
         if rng.random() < 0.5: a, b = b, a
         return fam, a, b
+    if fam == 'll-axis':
+        # the crossing lies ON a coordinate axis (one coordinate of the crossing point is exactly or nearly 0, the other is not): an
+        # axis-parallel line through the origin's row/column, crossed by a vertical / horizontal / general line
+        lo, hi = sorted([-rng.uniform(10, 300), rng.uniform(10, 300)])
+        xc = float(rng.randint(-200, 200)) if cf == 'int' else rng.uniform(-200, 200)
+        a = Line(P(lo + xc, 0.0), P(hi + xc, 0.0))
+        r = rng.random()
+        U = (lambda l, h: float(rng.randint(int(l), int(h)))) if cf == 'int' else rng.uniform
+        if cf == 'int': a = Line(P(xc - U(10, 300), 0.0), P(xc + U(10, 300), 0.0))
+        if r < 0.5: b = Line(P(xc, -U(5, 300)), P(xc, U(5, 300)))
+        elif cf == 'int':
+            # integer ends on both sides of the axis, the crossing at an integer abscissa: (xc - k*dx, -k*dy) .. (xc + m*dx, m*dy)
+            dx, dy, k, m = rng.randint(-6, 6), rng.randint(1, 9), rng.randint(1, 9), rng.randint(1, 9)
+            b = Line(P(xc - k * dx, -float(k * dy)), P(xc + m * dx, float(m * dy)))
+        else:
+            q = P(xc + rng.uniform(lo, hi) * 0.8, 0.0); d = P(rng.uniform(-1, 1), rng.choice([-1, 1]) * rng.uniform(0.2, 1))
+            b = Line(q + d * rng.uniform(10, 200), q + d * -rng.uniform(10, 200))
+        if rng.random() < 0.5: a = Line(a[1], a[0])
+        if rng.random() < 0.5: b = Line(b[1], b[0])
+        if rng.random() < 0.5: a, b = Line(P(a[0].y, a[0].x), P(a[1].y, a[1].x)), Line(P(b[0].y, b[0].x), P(b[1].y, b[1].x))
+        if rng.random() < 0.5: a, b = b, a
+        return 'll-axis', a, b
+    if fam == 'quad-flat-start':
+        # the first handle runs parallel to the line: along the line's normal the quadratic is a*t^2 + c (linear coefficient exactly 0 when
+        # the line is horizontal or vertical and left-to-right, nearly 0 after a rotation), crossed once in the interior
+        y0 = float(rng.randint(-200, 200)); Y = y0 + rng.choice([-1, 1]) * float(rng.randint(5, 150)); k = rng.uniform(1.3, 6)
+        xs = sorted(float(rng.randint(-300, 300)) for _ in range(3))
+        if xs[2] - xs[0] < 20: xs[2] += 60.0
+        c = QuadraticBezier(P(xs[0], y0), P(xs[1], y0), P(xs[2], y0 + (Y - y0) * k))
+        if rng.random() < 0.3: c = QuadraticBezier(c[2], c[1], c[0])
+        if rng.random() < 0.3: c = c.toCubicBezier()
+        l = Line(P(-400.0, Y), P(400.0, Y))
+        r = rng.random()
+        if r < 0.25: l = Line(l[1], l[0])
+        elif r < 0.5:
+            c = type(c)(*[P(q.y, q.x) for q in c.points]); l = Line(P(Y, -400.0), P(Y, 400.0))
+        elif r < 0.7:
+            ang = rng.uniform(0, 6.283); o = P(float(rng.randint(-50, 50)), float(rng.randint(-50, 50)))
+            c = c.rotated(o, ang); l = l.rotated(o, ang)
+        return fam, c, l
     if fam == 'end-hook':
         # a small hook in the first (or last) percent of the curve that sticks out of the box of everything else, crossed twice by a line
         a = rng.uniform(500, 2000); ts = rng.uniform(0.002, 0.008); b = rng.uniform(1e4, 5e4)
@@ -77,7 +117,7 @@ def gen_pair(rng):
     elif fam == 'quad-linear-x':
         a, b = rp(rng, cf), rp(rng, cf)
         c = QuadraticBezier(a, P((a.x + b.x) / 2, rng.uniform(-300, 300)), b)
-    elif fam == 'cubic' or fam in ('cubic-vline', 'cubic-hline'): c = CubicBezier(rp(rng, cf), rp(rng, cf), rp(rng, cf), rp(rng, cf))
+    elif fam == 'cubic' or fam in ('cubic-vline', 'cubic-hline', 'curve-axis'): c = CubicBezier(rp(rng, cf), rp(rng, cf), rp(rng, cf), rp(rng, cf))
     elif fam in ('cubic-near-elevated', 'cubic-near-straight', 'quad-near-linear'):
         eps = 10.0 ** -rng.randint(3, 13)
         if fam == 'cubic-near-elevated': c = QuadraticBezier(rp(rng, cf), rp(rng, cf), rp(rng, cf)).toCubicBezier()
@@ -96,7 +136,13 @@ def gen_pair(rng):
     else:   # symmetric arch
         x0, x1 = sorted([rng.randint(-300, 300), rng.randint(-300, 300)]); y0 = rng.randint(-300, 300); h = rng.randint(10, 300)
         c = CubicBezier(P(x0, y0), P(x0, y0 + h), P(x1, y0 + h), P(x1, y0))
-    if fam == 'cubic-vline':
+    if fam == 'curve-axis':
+        # a curve crossed by a piece of a coordinate axis: one coordinate of every crossing point is (nearly) 0
+        if rng.random() < 0.4: c = QuadraticBezier(c[0], c[1], c[3])
+        if rng.random() < 0.5: l = Line(P(rng.uniform(-500, -310), 0.0), P(rng.uniform(310, 500), 0.0))
+        else: l = Line(P(0.0, rng.uniform(-500, -310)), P(0.0, rng.uniform(310, 500)))
+        if rng.random() < 0.5: l = Line(l[1], l[0])
+    elif fam == 'cubic-vline':
         x = rng.uniform(-250, 250); l = Line(P(x, rng.uniform(-500, -100)), P(x, rng.uniform(100, 500)))
     elif fam == 'cubic-hline' or (fam == 'cubic-arch' and rng.random() < 0.6):
         y = rng.uniform(-250, 250) if fam != 'cubic-arch' else c[0].y + rng.uniform(0.05, 0.7) * (c[1].y - c[0].y)
